@@ -6,7 +6,10 @@ from ..core import Problem, register
 from .c04 import ThresholdCheck, common_judge, mark_f18, stash_tags
 
 TOL = tc.TOL
-LP_TOL = 1e-6
+# scipy HiGHS vs the exact envelope optimum: measured max |difference| 1.1e-15 on 600 clean-tree cases (HiGHS returns a
+# basic solution; its feasibility tolerance of 1e-7 is not what limits the accuracy of the optimum on these tiny LPs).
+# 1e-9 keeps six orders of magnitude of head-room (was 1e-6); a disagreement is a HARNESS error (exit 2), never a violation.
+LP_TOL = 1e-9
 
 
 @register
@@ -36,11 +39,11 @@ class CHECK(ThresholdCheck):
             "thorough additionally enumerates all multisets of rows up to size 6 over 2 groups x 3 levels and size 8 "
             "over 3 groups x 2 levels")
     explanation = ("optimality theorems proved over the Lean model for all inputs (exact arg-max); the implementation's "
-                   "achieved objective (from _pmf_predict alone) must reach the reference optimum within 1e-8 and the "
+                   "achieved objective (from _pmf_predict alone) must reach the reference optimum within 1e-12 and the "
                    "best constant classifier; model objective must equal the reference optimum exactly (else harness "
-                   "error); linprog must agree with the envelope within 1e-6 (else harness error)")
+                   "error); linprog must agree with the envelope within 1e-9 (else harness error)")
     trusted = ("as C04; additionally np.around(.,15) / floating-point ties in the arg-max are outside the model: the "
-               "comparison is on objective VALUES (tolerance 1e-8), any arg-max within tolerance is accepted",
+               "comparison is on objective VALUES (tolerance 1e-12), any arg-max within tolerance is accepted",
                "scipy.optimize.linprog (HiGHS) is only a cross-check of the Fraction envelope oracle")
     assumptions = ("every group contains both labels", "scores are finite", "grid_size >= 1")
 
